@@ -107,6 +107,9 @@ var verifFrags = []string{
 	// safe navigation on typed receivers, chained calls, calls on results of failing calls
 	"n = nil\nn&.abs", "n = nil\nn&.abs.to_s", "s = \"a\"\ns&.upcase", "u = true ? 1 : nil\nu&.to_s", "[1].first&.to_s", "n = nil\nn.abs", "q = [1].nope\nq.first", "[1].first.nope.first",
 	"h = {k: 1}\nh[:k]&.to_s", "class K\ndef m\nend\nend\nK.new&.m", "K.new.m(", "x = (1", "[1, 2].each do |e|", "def f(a", "for a", "class << self", "module M\nclass << self", "class A < B\nend\nclass B < A\nend",
+	// calls with too few / too many arguments against signatures with an optional parameter before a required one, singleton definitions on an unknown receiver, multiple assignment from an unknown constant as a method's last statement
+	"def q(a = 1, b)\nb\nend\nq()", "def q(a, b = 1, c)\nc\nend\nq(1)", "def q(a = 1, k:)\nk\nend\nq()", "def q(*r, z)\nend\nq()", "def q(a = 1, b = 2)\nend\nq(1, 2, 3)", "def q(k:, j: 2)\nend\nq(j: 1)",
+	"class K2\ndef initialize(a = 1, b)\nend\nend\nK2.new", "def x.y\nend", "def self.y\nend", "def f\na, b = Foo\nend", "def f\na, b = foo\nend", "def f(\"\")\nend\nf(1)", "def f(:a)\nend\nf(1)", "def f(1)\nend\nf(1)",
 }
 
 const verifCoreN = 36
